@@ -239,5 +239,7 @@ def directed(ctx, only=None):
     recursion_matrix(ctx)
     for case in c04.multi_base_matrix():
         D.run_one(ctx, case, JUDGE, nontrivial=nontrivial)
+    for case in c04.diamond_matrix():  # which arm's override (and precondition) the bottom class gets
+        D.run_one(ctx, case, JUDGE, nontrivial=nontrivial)
     for case in c04.gap_matrix():  # the ancestor's precondition reaches an override across classes that do not define the member
         D.run_one(ctx, case, JUDGE, nontrivial=nontrivial)
